@@ -76,6 +76,8 @@ class GuardAnalysis:
                 if rv['r'] == 'cast' and rv['op']['k'] in ('copy', 'move') and rv['op']['pl']['l'] in imgs and not fields(rv['op']['pl']):
                     # integer widening/int-to-int casts preserve zero
                     return rv['kind'].startswith('IntToInt')
+                if rv['r'] == 'agg' and rv['kind'].get('a') == 'adt' and str(rv['kind'].get('adt', '')).endswith('Cow') and rv['ops']:
+                    return all(op_in(o, imgs, ZP_FIELDS) for o in rv['ops'])      # Cow::Borrowed(x) / Cow::Owned(x): zero iff x is
                 if rv['r'] == 'un' and rv['uop'] == 'Neg':
                     return op_in(rv['a'], imgs)
                 if rv['r'] == 'bin' and rv['bop'].startswith('Mul'):
